@@ -199,7 +199,7 @@ func init() {
 	register(&CheckDef{
 		ID:    "C14",
 		Title: "Behaviour is independent of index type, shard count, I/O type and limits",
-		Reach: []string{"done", "files-compared", "batch", "restarted"},
+		Reach: []string{"done", "files-compared", "batch", "restarted", "spanning-iterator"},
 		Jobs: func(tier string) []JobSpec {
 			var js []JobSpec
 			add := func(name string, params map[string]int64) {
@@ -208,8 +208,8 @@ func init() {
 			base := p("pool", 2, "klen", 1, "vlens", 3, "vbig", 25)
 			js = append(js, JobSpec{Name: "nextPowerOfTwo-all-64-bit", Harness: "index", Func: "verifHarnessC14Pow2", Params: p(), Scale: scaleDF(32), CrossCheck: true})
 			if tier == "quick" {
-				add("hashmap-vs-btree", merge(base, p("k", 3, "ops", opPut|opDelete, "index", 3, "shards", 1, "b_index", 1, "b_shards", 2, "cmpfiles", 1)))
-				add("btree-vs-skiplist", merge(base, p("k", 3, "ops", opPut|opDelete, "index", 1, "shards", 2, "b_index", 2, "b_shards", 3, "cmpfiles", 1)))
+				add("hashmap-vs-btree", merge(base, p("k", 3, "ops", opPut|opDelete, "index", 3, "shards", 1, "b_index", 1, "b_shards", 2, "cmpfiles", 1, "iterspan", 1, "vlens", 2)))
+				add("btree-vs-skiplist", merge(base, p("k", 3, "ops", opPut|opDelete, "index", 1, "shards", 2, "b_index", 2, "b_shards", 3, "cmpfiles", 1, "iterspan", 1, "vlens", 2)))
 				add("std-vs-mmap", merge(base, p("k", 3, "ops", opPut|opDelete|opRestart, "index", 3, "shards", 1, "b_io", 2, "vlens", 2)))
 				add("dfs-and-sync", merge(base, p("k", 3, "ops", opPut|opDelete, "index", 3, "shards", 1, "dfs_lo", 40, "dfs_hi", 120, "b_dfs_lo", 40, "b_dfs_hi", 120, "b_sync", 2, "vlens", 2)))
 				add("shards-16-vs-5000-conckeys", merge(base, p("k", 2, "ops", opPut|opDelete, "conckeys", 1, "index", 3, "shards", 16, "b_shards", 5000, "b_index", 1, "cmpfiles", 1)))
@@ -217,7 +217,8 @@ func init() {
 			} else {
 				for a := 1; a <= 3; a++ {
 					for b := a + 1; b <= 3; b++ {
-						add(fmt.Sprintf("%s-vs-%s-k4", idxName[a], idxName[b]), merge(base, p("k", 4, "ops", opPut|opDelete|opRestart, "index", a, "shards", 1, "b_index", b, "b_shards", 3)))
+						add(fmt.Sprintf("%s-vs-%s-k4", idxName[a], idxName[b]), merge(base, p("k", 4, "ops", opPut|opDelete, "index", a, "shards", 1, "b_index", b, "b_shards", 3, "iterspan", 1, "vlens", 2)))
+						add(fmt.Sprintf("%s-vs-%s-k3-restart", idxName[a], idxName[b]), merge(base, p("k", 3, "ops", opPut|opDelete|opRestart, "index", a, "shards", 1, "b_index", b, "b_shards", 3)))
 					}
 				}
 				add("std-vs-mmap-k4", merge(base, p("k", 4, "ops", opPut|opDelete|opRestart, "index", 3, "shards", 1, "b_io", 2)))
@@ -582,7 +583,7 @@ func init() {
 	register(&CheckDef{
 		ID:    "C16",
 		Title: "A data directory has at most one open database at a time",
-		Reach: []string{"done", "reopened-after-close", "failed-open-corrupt", "failed-open-injected"},
+		Reach: []string{"done", "reopened-after-close", "failed-open-corrupt", "failed-open-injected", "stale-close", "racing-open-won", "racing-open-lost"},
 		Jobs: func(tier string) []JobSpec {
 			var js []JobSpec
 			for idx := 1; idx <= 3; idx += 2 {
@@ -593,10 +594,11 @@ func init() {
 				pre = 4
 			}
 			js = append(js, JobSpec{Name: "racing-opens-fresh-dir", Harness: "root", Func: "verifHarnessC16Race", Params: p("index", 3, "shards", 1, "preempt", pre), Scale: scaleDF(32), NoReplay: true})
+			js = append(js, JobSpec{Name: "close-racing-open", Harness: "root", Func: "verifHarnessC16CloseRace", Params: p("index", 3, "shards", 1, "preempt", pre), Scale: scaleDF(32), NoReplay: true})
 			js = append(js, JobSpec{Name: "witness", Harness: "root", Func: "verifHarnessC16", Params: p("index", 3, "shards", 1, "maxfail", 14, "witness", 1), Scale: scaleDF(32), Witness: true})
 			return js
 		},
-		Assumptions: []string{"flock contract: one holder per lock file, two Flock objects in one process conflict (as flock(2) does per open file description), all locks die with the process; real cross-process kernel behaviour is trusted, not checked",
+		Assumptions: []string{"flock contract: the lock is held on the INODE the lock file path named when it was taken (unlinking and re-creating the path gives a fresh, unlocked inode), one holder per inode, two Flock objects in one process conflict (as flock(2) does per open file description), all locks die with the process; real cross-process kernel behaviour is trusted, not checked",
 			"for this property only one solver-chosen file-system call inside Open may return an error, so every error exit of Open after the lock is taken is driven",
 			"racing Opens are interleaved at file-system and lock operations (engine threads); schedule violations are not replayed natively"},
 		Bounds: map[string]string{
@@ -714,11 +716,13 @@ func init() {
 				add("2x2-hashmap", p("threads", 2, "opsper", 2, "pool", 1, "index", 3, "shards", 1, "preempt", 2), 0)
 				add("2x1-btree-2keys", p("threads", 2, "opsper", 1, "pool", 2, "index", 1, "shards", 2, "preempt", 2, "preput", 1), 0)
 				add("2x1-merge", p("threads", 2, "opsper", 1, "pool", 1, "index", 3, "shards", 1, "preempt", 1, "merge", 1, "preput", 1), 0)
+				add("1x2-merge-rotating-writer", p("threads", 1, "opsper", 2, "onlyput", 1, "pool", 2, "index", 3, "shards", 1, "preempt", 2, "merge", 1, "preput", 1, "dfs_lo", 60, "dfs_hi", 60), 0)
 			} else {
 				add("2x2-hashmap-p3", p("threads", 2, "opsper", 2, "pool", 1, "index", 3, "shards", 1, "preempt", 3, "preput", 1), 0)
 				add("3x1-skiplist", p("threads", 3, "opsper", 1, "pool", 1, "index", 2, "shards", 1, "preempt", 2, "preput", 1), 0)
 				add("2x2-btree-2keys", p("threads", 2, "opsper", 2, "pool", 2, "index", 1, "shards", 2, "preempt", 2), 0)
 				add("2x1-merge-p2", p("threads", 2, "opsper", 1, "pool", 1, "index", 3, "shards", 1, "preempt", 2, "merge", 1, "preput", 1), 0)
+				add("2x1-merge-rotating-writers", p("threads", 2, "opsper", 1, "pool", 2, "index", 3, "shards", 1, "preempt", 2, "merge", 1, "preput", 1, "dfs_lo", 60, "dfs_hi", 60), 0)
 			}
 			js = append(js, JobSpec{Name: "witness", Harness: "root", Func: "verifHarnessC08", Params: p("threads", 1, "opsper", 1, "pool", 1, "index", 3, "shards", 1, "witness", 1), Scale: scaleDF(32), Witness: true})
 			return js
